@@ -2,7 +2,7 @@
    fragments of property C18 (tools/frags/validators.py:SITE, tools/sitegen/validators.py).  Each
    is keyed there by the exact source text of the expression it stands for.  A sequence of axes
    (tuple / list) is a VTuple of values.  No property content. *)
-From Coq Require Import ZArith List Bool.
+From Coq Require Import ZArith List Bool String.
 From Verif Require Import Py.
 Import ListNotations.
 Open Scope Z_scope.
@@ -95,3 +95,17 @@ Definition ext_shape_ne (a b : pyv) : res pyv :=
     | _, _ => Raise TypeError end
   | _, _ => Raise TypeError
   end.
+
+(* Call skeleton of a public function, extracted from the source by tools/sitegen/validators.py:
+   which calls may REJECT the arguments (validators; `raise` statements), which calls touch or
+   produce array data (kernels / constructors), and in which order they can execute.  Everything
+   else (shape arithmetic, isinstance, tuple building ...) is dropped. *)
+Inductive prog :=
+| PSkip
+| PSeq (a b : prog)
+| PVal (name : string)        (* call of a validator: may raise *)
+| PKer (name : string)        (* call of a kernel / constructor / conversion producing array data *)
+| PRaise                      (* a `raise` statement *)
+| PReturn
+| PIf (a b : prog)            (* if / else (elif chains are nested) *)
+| PLoop (b : prog).           (* for / while: the body any number of times *)
